@@ -566,7 +566,7 @@ class _Norm(ast.NodeTransformer):
             if isinstance(st, ast.Assign) and len(st.targets) == 1 and isinstance(st.targets[0], ast.Tuple) and not isinstance(st.value, ast.Tuple) and \
                     all(isinstance(t, ast.Name) for t in st.targets[0].elts):
                 real = [(k, t) for k, t in enumerate(st.targets[0].elts) if t.id != '_' and self.counts.get(t.id, (0, 1))[1] > 0]     # a name nobody reads is a placeholder
-                if len(real) == 1 and len(st.targets[0].elts) >= 2:
+                if len(real) == 1 and len(st.targets[0].elts) >= 1:      # also (x,) = f()  ->  x = f()[0]
                     k, t = real[0]
                     out.append(ast.copy_location(ast.Assign(targets=[ast.Name(id=t.id, ctx=ast.Store())],
                                                             value=ast.Subscript(value=st.value, slice=ast.Constant(value=k), ctx=ast.Load())), st))
